@@ -413,19 +413,15 @@ public:
     {
         const ConstructableType     defaultValue(*m_memoryManager);
 
-        if (newSize > size())
+        // (size() changes as we go, so do not compare against it...)
+        while (size() < newSize)
         {
-            for (size_type i = 0; i < newSize - size(); ++i)
-            {
-                push_back(defaultValue.value);
-            }
+            push_back(defaultValue.value);
         }
-        else
+
+        while (size() > newSize)
         {
-            for (size_type i = 0; i < size() - newSize; ++i)
-            {
-                pop_back();
-            }
+            pop_back();
         }
     }
 
